@@ -6,7 +6,7 @@
 EXTENDS MetaWalkers, Json, IOUtils
 Trace == ndJsonDeserialize(IOEnv.TRACE)
 VARIABLE l
-tvars == <<it, first, own, buf, flushed, sstep, gen, mir, dup, cursor, cgen, insync, fstep, lastgot, missing, quirk, hist, l>>
+tvars == <<it, first, own, buf, flushed, sstep, gen, mir, dup, cursor, cgen, insync, fstep, lastgot, missing, oldbuf, midwin, quirk, hist, l>>
 Ev == Trace[l]
 Pow2(n) == IF n = 0 THEN 1 ELSE IF n = 1 THEN 2 ELSE IF n = 4 THEN 16 ELSE IF n = 9 THEN 512 ELSE IF n = 16 THEN 65536 ELSE 0
 \* energy x 2^16 at lattice position x of hills deposited at lattice positions pos[h]: 2^(-d^2) each, 0 beyond d = 4
@@ -21,16 +21,21 @@ TReset == /\ l <= Len(Trace) /\ Ev.e = "Reset" /\ l' = l + 1
           /\ cursor' = [w \in Walkers |-> 0] /\ cgen' = [w \in Walkers |-> 0]
           /\ insync' = [w \in Walkers |-> FALSE] /\ fstep' = [w \in Walkers |-> 0]
           /\ lastgot' = [w \in Walkers |-> {}] /\ missing' = [w \in Walkers |-> {}] /\ quirk' = {} /\ hist' = <<>>
+          /\ oldbuf' = [w \in Walkers |-> <<>>] /\ midwin' = [w \in Walkers |-> FALSE]
 TStep == /\ l <= Len(Trace) /\ Ev.e = "Step" /\ l' = l + 1
          /\ Ev.t = it[Ev.w]
-         /\ Ev.view.n <= flushed[Peer(Ev.w)]
+         /\ (Ev.view.stale => midwin[Peer(Ev.w)])
+         /\ Ev.view.n <= (IF Ev.view.stale THEN Len(oldbuf[Peer(Ev.w)]) ELSE flushed[Peer(Ev.w)])
          \* the records the coordinator copied are the first n of the peer's modelled hills file, and the snapshot it copied is the modelled one
-         /\ Ev.view.recs = SubSeq(buf[Peer(Ev.w)], 1, Ev.view.n)
+         /\ Ev.view.recs = SubSeq(IF Ev.view.stale THEN oldbuf[Peer(Ev.w)] ELSE buf[Peer(Ev.w)], 1, Ev.view.n)
          /\ Ev.view.sstep = sstep[Peer(Ev.w)]
-         /\ Step(Ev.w, [n |-> Ev.view.n, partial |-> Ev.view.partial])
+         /\ Step(Ev.w, [n |-> Ev.view.n, partial |-> Ev.view.partial, stale |-> Ev.view.stale])
          \* observations: hills reported as received, the walker's own hills file, the energy
-         /\ {Ev.recv[i] : i \in 1..Len(Ev.recv)} = lastgot'[Ev.w]
-         /\ Len(Ev.recv) = Cardinality(lastgot'[Ev.w])
+         \* (the log line "received a hill" is also printed, with a meaningless step number, for a record that the reader
+         \* SKIPS because the snapshot already contains it; such records only exist in the old hills file, so with a stale
+         \* view the reported list is not an observation of what was merged - the energy below is)
+         /\ (~Ev.view.stale) => /\ {Ev.recv[i] : i \in 1..Len(Ev.recv)} = lastgot'[Ev.w]
+                                /\ Len(Ev.recv) = Cardinality(lastgot'[Ev.w])
          /\ Ev.resync = (Ev.t % U = 0 /\ ~insync[Ev.w])
          \* a torn record at the end of the peer's hills file makes the reading step report an error (no bias is applied on
          \* that step); nothing else may: the error is only accepted with a partial view, and the data must still follow
